@@ -12,7 +12,7 @@ import re
 import vf
 
 SMALL = {1: [1, 2, 3, 12], 2: [1, 2, 11], 3: [1, 3, 10], 10: [1, 3, 12]}
-BIG = {4: [7, 2048], 5: [7, 2048, 65535], 6: [7, 2048], 7: [7, 2048, 65535], 8: [2048, 65535], 9: [7, 2048]}
+BIG = {4: [7, 2048], 5: [7, 2048, 65535], 6: [7, 2048], 7: [7, 2048, 65535], 8: [2048, 65535], 9: [7, 2048], 11: [7, 2048]}
 
 
 def run(ctx):
